@@ -2,6 +2,7 @@ SPECIFICATION Spec
 CONSTANTS
   MaxOps = 5
   Defect = "skip_equal"
+  WithSource = FALSE
   Emit = TRUE
 INVARIANT FlagSound
 INVARIANT EmitOK
